@@ -15,10 +15,17 @@ case "$1" in
     fi ;;
   mcsched)
     ov=$(go run ./cmd/mkoverlay sched "$VERIF_ROOT/.build/ov-sched") || exit 2
-    go build -modfile=go.sched.mod -overlay "$ov" -o "$VERIF_ROOT/.build/mcsched${VERIF_BIN_SUFFIX:-}" ./cmd/mcsched ;;
+    if ! go build -modfile=go.sched.mod -overlay "$ov" -o "$VERIF_ROOT/.build/mcsched${VERIF_BIN_SUFFIX:-}" ./cmd/mcsched 2>"$VERIF_ROOT/.build/mcsched.err"; then
+      echo "note: build with Touch points failed (an anchor's identifiers changed?), retrying without Touch points: data races are then left to the -race pass" >&2
+      cat "$VERIF_ROOT/.build/mcsched.err" >&2
+      ov=$(VERIF_NOTOUCH=1 go run ./cmd/mkoverlay sched "$VERIF_ROOT/.build/ov-sched") || exit 2
+      go build -modfile=go.sched.mod -overlay "$ov" -o "$VERIF_ROOT/.build/mcsched${VERIF_BIN_SUFFIX:-}" ./cmd/mcsched
+    fi ;;
   mcsched.buf4)
     # the same binary with logging.BufferSize = 4 (one constant changed through the overlay)
     ov=$(VERIF_BUF4=1 go run ./cmd/mkoverlay sched "$VERIF_ROOT/.build/ov-buf4") || exit 2
     go build -modfile=go.sched.mod -overlay "$ov" -o "$VERIF_ROOT/.build/mcsched${VERIF_BIN_SUFFIX:-}.buf4" ./cmd/mcsched ;;
+  mcrace)
+    CGO_ENABLED=1 go build -race -o "$VERIF_ROOT/.build/mcrace${VERIF_BIN_SUFFIX:-}" ./cmd/mcrace ;;
   *) echo "unknown binary $1" >&2; exit 2 ;;
 esac
